@@ -15,6 +15,7 @@ git apply $S/patch.diff || { echo "PATCH DOES NOT APPLY"; exit 2; }
 go build ./... || { echo "DOES NOT BUILD"; exit 2; }
 mkdir -p $(dirname $V/$DEMO); cp $S/$(basename $DEMO) $V/$DEMO
 DEMOCMD=${DEMOCMD//$SRC/$V}; DEMOCMD=$(echo "$DEMOCMD" | sed -E "s#cd <[^>]*>#cd $V#g; s#cd DIR#cd $V#g")
+if [ -z "$SKIPCONFIRM" ]; then
 ( cd $V && eval "$DEMOCMD" ) > /tmp/seedverify/$NAME.with.log 2>&1; W=$?
 git apply -R $S/patch.diff
 ( cd $V && eval "$DEMOCMD" ) > /tmp/seedverify/$NAME.without.log 2>&1; WO=$?
@@ -22,6 +23,7 @@ echo "demo exit with patch=$W (want !=0), without patch=$WO (want 0)"
 git apply $S/patch.diff; rm -f $V/$DEMO
 go test -vet=off -count=1 ./pkg/... > /tmp/seedverify/$NAME.suite.log 2>&1
 echo "suite failures other than TestGetHost: $(grep -E "^\s*--- FAIL" /tmp/seedverify/$NAME.suite.log | grep -v TestGetHost | tr '\n' ' ')"
+else rm -f $V/$DEMO; fi
 # scratch copy of /verif against the patched worktree
 X=/tmp/verifx-$NAME
 rm -rf $X; mkdir -p $X; rsync -a --exclude .git --exclude bin --exclude replays --exclude seeded --exclude evidence /verif/ $X/
